@@ -5,6 +5,7 @@ import os
 import random
 
 import gens
+import gens_staking
 import vlib
 
 # model-checking configuration per family and tier: (module, cfg)
@@ -113,16 +114,23 @@ def crash_enumeration(tier, seed):
     writes = {}
     for rec in ref:
         if rec["kind"] == "Commit":
-            writes.setdefault(rec["sc"], []).append(len(rec.get("writes") or []))
+            writes.setdefault(rec["sc"], []).append(rec.get("writes") or [])
     out = []
     for h in hist:
-        for bi, nw in enumerate(writes.get(h["id"], [])):
+        for bi, ws in enumerate(writes.get(h["id"], [])):
             if bi == 0:
                 continue  # Tendermint itself cannot resume a chain whose first block never committed (the application reports initialHeight-1 after InitChain)
-            for k in range(1, nw + 1):
-                out.append(gens.with_crash(h, bi, k))
+            for k in range(len(ws)):
+                # a crash point is named by (label, occurrence): the order of the events-store writes varies from run to run
+                out.append(gens.with_crash(h, bi, k + 1, ws[k], ws[:k + 1].count(ws[k])))
     return out
 
 
-BUILDERS = {"ledger": ledger, "durability": durability, "crash": lambda tier, seed: crash(tier, seed) + crash_enumeration(tier, seed)}
+def staking(tier, seed):
+    rnd = random.Random("%d/staking" % seed)
+    return gens_staking.targeted() + gens_staking.staking(rnd, {"quick": 60, "thorough": 1500}[tier]) + regress("staking")
+
+
+MC["staking"] = {"quick": ("MCLedger", "mc/MCLedger_q.cfg"), "thorough": ("MCLedger", "mc/MCLedger_q.cfg")}
+BUILDERS = {"staking": staking, "ledger": ledger, "durability": durability, "crash": lambda tier, seed: crash(tier, seed) + crash_enumeration(tier, seed)}
 RANDOMISED = True
